@@ -38,6 +38,7 @@ func genCase(t *rapid.T, withInvalid bool) *Case {
 			c.MaxSize = c.MinSize
 		}
 	}
+	c.UserOpts = rapid.SampledFrom([]int{0, 0, 0, 0, 1, 2, 3, 4}).Draw(t, "userOpts")
 	for i := range EPNames {
 		if rapid.IntRange(0, 3).Draw(t, "startDown") == 0 {
 			c.StartDown = append(c.StartDown, i)
@@ -167,7 +168,8 @@ func TestC17GME(t *testing.T) {
 		return
 	}
 	rapid.Check(t, func(rt *rapid.T) {
-		c := &Case{Init: *genOptions(rt), MinSize: rapid.IntRange(0, 3).Draw(rt, "minSize"), MaxSize: rapid.SampledFrom([]int{0, 0, 3, 4}).Draw(rt, "maxSize")}
+		c := &Case{Init: *genOptions(rt), MinSize: rapid.IntRange(0, 3).Draw(rt, "minSize"), MaxSize: rapid.SampledFrom([]int{0, 0, 3, 4}).Draw(rt, "maxSize"),
+			UserOpts: rapid.SampledFrom([]int{0, 0, 1, 2, 3, 4}).Draw(rt, "userOpts")}
 		if c.MaxSize != 0 && c.MaxSize < c.MinSize {
 			c.MaxSize = c.MinSize
 		}
